@@ -64,3 +64,30 @@ Proof.
   unfold quiescent, open_at_checkpoint. intro H.
   do 6 (destruct H as [_ H]). destruct H as [H _]. specialize (H eq_refl). vm_compute in H. discriminate H.
 Qed.
+
+(** Recorded finding *-crash-inside-checkpoint, in the model's terms. *)
+(** The engine's CREATE is not idempotent: replaying it on a catalog that already holds the table fails
+    ('already exists') and recovery aborts.  [kv_apply_strict] is [kv_apply] with that failure made explicit. *)
+Inductive kvdb_s := SAbsent | STable (l : list (N * Z)) | SBroken.
+Definition kv_apply_strict (o : kvop) (d : kvdb_s) : kvdb_s :=
+  match d with
+  | SBroken => SBroken
+  | SAbsent => match o with OCreate => STable [] | _ => SAbsent end
+  | STable l => match o with
+                | OCreate => SBroken
+                | _ => match kv_apply o (Some l) with Some l' => STable l' | None => SAbsent end
+                end
+  end.
+
+(** The image in the middle of a checkpoint: the pages and the header of the running engine have reached the data
+    file, the log has not been truncated yet (Pager::flush between sync_header and wal.truncate). *)
+Definition torn_checkpoint (e : engine (op := kvop)) : disk (op := kvop) :=
+  {| d_hist := e_hist e; d_hdr := e_hdr e; d_log := d_log (e_disk e) ++ e_pending e |}.
+
+Definition first_commit : list (ev (op := kvop)) := [EBegin; EOp 0 OCreate; ECommit 0; EEnd 0].
+
+Lemma torn_checkpoint_breaks :
+  spec_view kv_apply_strict SAbsent (run first_commit) = STable []
+  /\ recovered_view kv_apply_strict SAbsent (e_disk (run first_commit)) = STable []
+  /\ recovered_view kv_apply_strict SAbsent (torn_checkpoint (run first_commit)) = SBroken.
+Proof. vm_compute. repeat split. Qed.
